@@ -697,8 +697,9 @@ class Interp:
                 return a * b
         elif isinstance(op, ast.Mod):
             if isinstance(a, str):
-                if is_sym(b) or (isinstance(b, tuple) and any(is_sym(x) for x in b)):
-                    raise Unsupported("%-formatting with symbolic argument")
+                if self.has_sym(b) or isinstance(b, Obj) or (isinstance(b, tuple) and any(isinstance(x, Obj) for x in b)):
+                    # rendering of a symbolic value into a message: an unconstrained string (over-approximation)
+                    return self.fresh_str("fmt")
                 return a % b
             if self.is_intlike(a) and self.is_intlike(b):
                 if not is_sym(a) and not is_sym(b):
@@ -736,6 +737,10 @@ class Interp:
             return str(v)
         if isinstance(v, (list, tuple, dict)) and not self.has_sym(v):
             return str(v)
+        if isinstance(v, MethodResult) and not self.has_sym(v.value):
+            return "dict_%s(%r)" % (v.kind, v.value)
+        if isinstance(v, (Obj, PProd, list, tuple, dict, OSeq)):
+            return self.fresh_str("fmt")     # message text only: unconstrained string (over-approximation)
         raise Unsupported("format of %s" % type(v).__name__)
 
     def has_sym(self, v, seen=None):
